@@ -116,7 +116,7 @@ TRemove ==
 TCall ==
   /\ l <= Len(Ev) /\ E.ev = "call"
   /\ pending[E.h] = NoCall
-  /\ FsCall(E.h, [op |-> E.op, txn |-> E.txn, marks |-> Range(E.marks)])
+  /\ FsCall(E.h, [op |-> E.op, txn |-> E.txn, marks |-> Range(E.marks), norecs |-> (E.txn # 0 /\ E.recs = <<>>)])
   /\ txnRecs' = IF E.txn # 0 THEN Put(txnRecs, E.txn, E.recs) ELSE txnRecs
   /\ FsNop /\ UNCHANGED fds /\ obs' = NoObs /\ Step
 
